@@ -19,6 +19,9 @@ let site_name = function
   | PBalanceCurNil -> "PBalanceCurNil" | PUnspentsCurNil -> "PUnspentsCurNil"
   | PImportRecNil -> "PImportRecNil" | PTaskChanNil -> "PTaskChanNil" | PFilterTxIndex -> "PFilterTxIndex"
   | PFilterImpIndex -> "PFilterImpIndex" | PTxLocsIndex -> "PTxLocsIndex"
+  | PTargetIdx -> "PTargetIdx" | PBindHistIndex -> "PBindHistIndex" | PBindHistTargetNil -> "PBindHistTargetNil"
+  | PBindHistPrevIndex -> "PBindHistPrevIndex" | PTxTypeIndex -> "PTxTypeIndex" | PVinIndex -> "PVinIndex"
+  | PRewardTxOut -> "PRewardTxOut" | PCurEvictedNil -> "PCurEvictedNil"
 
 let show = function
   | Ok _ -> "ok"
@@ -31,6 +34,14 @@ let rec permutations = function
     List.concat (List.mapi (fun i x ->
       let rest = List.filteri (fun j _ -> j <> i) l in
       List.map (fun p -> x :: p) (permutations rest)) l)
+
+(* which switch setting the implementation under test corresponds to: the code as it stands ([current_code]) or,
+   for a worktree that carries the proposed repair of GetBindingHistoryDetail, C19_MODEL_FIXES=all_fixed *)
+let code_under_test =
+  match Sys.getenv_opt "C19_MODEL_FIXES" with
+  | Some "all_fixed" -> all_fixed
+  | Some "as_found" -> as_found
+  | _ -> current_code
 
 let () =
   iter_lines (fun line ->
@@ -82,7 +93,7 @@ let () =
             [ RCreateStakingTransaction (fr, st, am, fz, fee) ]
           | "GetTransactionFee" ->
             let hb = nbool () in let am = amounts () in let ins = inputs () in
-            [ RGetTransactionFee (am, ins, hb) ]
+            List.map (fun a -> RGetTransactionFee (a, ins, hb)) (if List.length am <= 4 then permutations am else [ am ])
           | "SignRawTransaction" ->
             let raw = nstr () in let pass = nstr () in let fl = nstr () in
             let dec = nbool () in
@@ -95,6 +106,25 @@ let () =
             let ce = nbool () in let na = nz () in let ins = inputs () in [ RWmCreateRawTransaction (ins, na, ce) ]
           | "WM.EstimateManualTxFee" -> [ RWmEstimateManualTxFee (inputs ()) ]
           | "WM.GetTxHistory" -> [ RWmGetTxHistory (nz ()) ]
+          | "CreateBindingTransaction" ->
+            let fr = nstr () in let fee = nstr () in
+            let outs = nlist (fun () -> let h = nstr () in let b = nstr () in let a = nstr () in
+                                        { bo_holder = h; bo_binding = b; bo_amount = a }) in
+            [ RCreateBindingTransaction (outs, fr, fee) ]
+          | "CreatePoolPkCoinbaseTransaction" -> let fr = nstr () in let pl = nstr () in [ RCreatePoolPkCoinbaseTransaction (fr, pl) ]
+          | "GetStakingHistory" -> [ RGetStakingHistory (nstr ()) ]
+          | "GetBindingHistory" -> [ RGetBindingHistory (nstr ()) ]
+          | "SendRawTransaction" ->
+            let raw = nstr () in
+            if nbool () then decoded := Some [];
+            [ RSendRawTransaction raw ]
+          | "GetNetworkBinding" -> [ RGetNetworkBinding (nz ()) ]
+          | "CheckPoolPkCoinbase" -> [ RCheckPoolPkCoinbase (nlist nstr) ]
+          | "CheckTargetBinding" -> [ RCheckTargetBinding (nlist nstr) ]
+          | "GetBlockByHeight" -> [ RGetBlockByHeight (nz ()) ]
+          | "GetBestBlock" -> [ RGetBestBlock ]
+          | "GetBlockStakingReward" -> [ RGetBlockStakingReward (nz ()) ]
+          | "Wallets" -> [ RWallets ]
           | _ -> raise Exit
         in
         if next () <> "#" then failwith "separator";
@@ -122,10 +152,54 @@ let () =
             | Some (_, _, _, _, "1") -> Some true
             | _ -> None) } in
         let c = if cur then Some (Npos XH) else None in
-        let w = { cur = c; cur2 = c; cur3 = c; st = st; taskchan = tc } in
+        let evicted = ref false in
+        (* the codec answers and the node-side facts of the second group (optional section "$") *)
+        let addr_tab = ref [] and pay_tab = ref [] in
+        let best = ref (z_of_int 0) and block = ref None and reward = ref None and rows = ref [] in
+        if !pos < Array.length f && f.(!pos) = "$" then begin
+          incr pos;
+          addr_tab := nlist (fun () -> let a = nstr () in let c = next () in
+            let cls = match c.[0] with
+              | 'E' -> ADecErr | 'P' -> APubKeyHash | 'T' -> ABindingTarget
+              | 'W' -> (match String.split_on_char '.' (String.sub c 1 (String.length c - 1)) with
+                        | [ a; b ] -> AWitness (z_of_string a, z_of_string b) | _ -> failwith "address class")
+              | 'O' -> AOther (z_of_string (String.sub c 1 (String.length c - 1)))
+              | _ -> failwith "address class" in
+            (a, cls));
+          pay_tab := nlist (fun () -> let h = nstr () in let b = nbool () in (h, b));
+          best := nz ();
+          (match next () with "1" -> block := Some [] | _ -> block := None);
+          (match next () with
+           | "-" -> reward := None
+           | v -> (match String.split_on_char ',' v with
+                   | [ a; b ] -> reward := Some (z_of_string a, z_of_string b) | _ -> failwith "reward"));
+          let bins () = nlist (fun () ->
+            let pv = next () in let ix = nz () in let g = nbool () in let ok = nbool () in
+            { bi_prev = (if pv = "-" then None else Some (z_of_string pv)); bi_index = ix; bi_game = g; bi_addr_ok = ok }) in
+          rows := nlist (fun () ->
+            let mined = nbool () in let vout = nz () in let same = nbool () in
+            let fetched = nbool () in
+            let outs = nlist (fun () -> match next () with "-" -> None | "1" -> Some true | _ -> Some false) in
+            let amt = nz () in let cb = nbool () in let ins = bins () in
+            { br_mined = mined; br_vout = vout; br_same = same; br_tx = (if fetched then Some outs else None);
+              br_amount = amt; br_coinbase = cb; br_ins = ins });
+          evicted := nbool ()
+        end;
+        let w = { cur = c; cur2 = c; cur3 = c; st = st; taskchan = tc; evicted = !evicted } in
+        let cd = {
+          c_addr = (fun s -> match List.assoc_opt s !addr_tab with
+                             | Some c -> c
+                             | None -> failwith ("address not in the codec table: " ^ string_of_zlist s));
+          c_payload_pool = (fun raw -> match List.assoc_opt raw !pay_tab with
+                                       | Some b -> b
+                                       | None -> failwith "payload not in the codec table") } in
         let e = { e_rest_ok = true; e_decode_tx = (fun _ -> !decoded); e_sign_ok = true; e_selected = [];
-                  e_next_addr = Some [ () ]; e_history_batches = [] } in
-        let outs = List.sort_uniq compare (List.map (fun r -> show (handle trim_ascii current_code e w r)) variants) in
+                  e_next_addr = Some [ () ]; e_history_batches = [];
+                  e_block = !block; e_rawtx = None; e_best = !best; e_reward = !reward; e_stake_rows = []; e_bind_rows = !rows } in
+        let outs = List.sort_uniq compare (List.map (fun r ->
+          match r with
+          | RGetRawTransaction _ when (match prologue trim_ascii cd r with Ok _ -> true | _ -> false) -> "ok"   (* the served transaction is not rendered here *)
+          | _ -> show (handle trim_ascii cd code_under_test e w r)) variants) in
         Printf.printf "R\t%s\t%s\n" id (String.concat "|" outs)
       with
       | Exit -> Printf.printf "R\t%s\tskip\n" id
